@@ -101,13 +101,21 @@ def lexrun(seed, tier, log=print, extra_modes=('p',)):
     for i in accepted:
         for b in inputs[i][:: max(1, len(inputs[i]) // 300)]:
             treqs.append('%d t %s' % (i, P.hexs(b)))
+    # callback invocations (mode c: the ordinary stream followed by the number of callback calls), definitions with callbacks
+    creqs = []
+    cin = {}
+    for i in accepted:
+        if any(l.cb for l in corpus[i].leaves):
+            cin[i] = inputs[i][:: max(1, len(inputs[i]) // 120)]
+            for b in cin[i]:
+                creqs.append('%d c %s' % (i, P.hexs(b)))
     zoo_out = {}
     for c, b in builds.items():
         if not b['ok']:
             zoo_out[c] = None
             continue
         t1 = time.time()
-        outs = Z.run_zoo(b['bin'], treqs if 'trace' in c else reqs + preqs, nproc=6)
+        outs = Z.run_zoo(b['bin'], treqs if 'trace' in c else reqs + preqs + creqs, nproc=6)
         zoo_out[c] = outs
         log('lexrun: zoo run %s: %d requests %.1fs' % (c, len(outs), time.time() - t1))
     # lean
@@ -126,6 +134,9 @@ def lexrun(seed, tier, log=print, extra_modes=('p',)):
             lines.append('Q PSPEC ' + P.hexs(b))
         for b in inputs[i][:: max(1, len(inputs[i]) // 300)]:
             lines.append('Q LEX t ' + P.hexs(b))
+        for b in cin.get(i, []):
+            lines.append('Q CALLS ' + P.hexs(b))
+            lines.append('Q SPECCALLS ' + P.hexs(b))
     t1 = time.time()
     lean = P.run_lean(lines, nproc=12)
     log('lexrun: lean driver %d answers %.1fs' % (len(lean), time.time() - t1))
